@@ -1,5 +1,6 @@
 import HdModel.Spec.Tls
 import HdModel.Model.TlsPool
+import HdModel.Props.Builder
 /-! # C12 — with TLS configured, https/wss traffic is never sent in the clear
 
 Theorems about `Hd.Tls.run` for **every** case: any scheme string, any host string, any peer
